@@ -1,5 +1,33 @@
-import Proofs.Basic
+import Proofs.Integrity
 /-!
 # C03 — the integrity check is sound
+
+`integrityOK` (in `Spec/Codec.lean`) states, from the bytes alone, that a string is
+`BeginString | BodyLength=n | n bytes | CheckSum=c |` with `c` the three-digit sum mod 256 of every
+byte before the CheckSum field and CheckSum the last field. `C03_sound`: whatever `validateRaw`
+accepts satisfies it — for **every** byte string, not only for damaged copies of valid messages.
+`C03_unmarshal_sound`: hence so does everything the decoder accepts, strict or not.
 -/
-theorem C03_checksum_width (b : Bytes) : (calcCheckSum b).length = 3 := calcCheckSum_length b
+
+/-- the framing tags are decimal numbers: no delimiter, no '=' -/
+def framingTagsOK (m : Msg) : Prop :=
+  SOH ∉ m.bsTag ∧ SOH ∉ m.blTag ∧ SOH ∉ m.csTag ∧ EQ ∉ m.bsTag ∧ EQ ∉ m.blTag ∧ EQ ∉ m.csTag
+
+theorem C03_sound (m : Msg) (d : Bytes) (ht : framingTagsOK m) (h : validateRaw m d = .ok ()) :
+    integrityOK m.bsTag m.blTag m.csTag d = true := by
+  obtain ⟨t1, t2, t3, e1, e2, e3⟩ := ht
+  obtain ⟨a⟩ := validateRaw_ok_inv m d h
+  exact integrity_core _ _ _ a.bsv a.blv a.csv d a.n t1 t2 t3 e1 e2 e3 a.bsv_soh a.blv_soh a.csv_soh a.atoi_bl a.frame
+
+/-- the decoder accepts nothing the integrity statement does not hold for -/
+theorem C03_unmarshal_sound (m m' : Msg) (d : Bytes) (ht : framingTagsOK m) (h : m.unmarshal d = .ok m') :
+    integrityOK m.bsTag m.blTag m.csTag d = true := by
+  unfold Msg.unmarshal at h
+  cases hv : validateRaw m d with
+  | ok u => exact C03_sound m d ht hv
+  | err => simp [hv] at h
+  | panic => simp [hv] at h
+
+/-- non-vacuity: `8=F|9=5|35=0|10=062|` is accepted by the model's `validateRaw` -/
+example : validateRaw (Msg.new [56] [57] [49, 48] [51, 53] [70] [48] [] [] [])
+    [56,61,70,1, 57,61,53,1, 51,53,61,48,1, 49,48,61,48,54,50,1] = .ok () := by decide
